@@ -1144,9 +1144,9 @@ def unpack_named_tuple(spec: ValueSpec) -> Expression:
             )
     field_indices: Iterable[Any]
     if as_dict:
-        field_indices = zip((f"'{name}'" for name in fields), fields)
+        field_indices = list(zip((f"'{name}'" for name in fields), fields))
     else:
-        field_indices = enumerate(fields)
+        field_indices = list(enumerate(fields))
     if not defaults:
         packed_value = spec.expression
     else:
@@ -1184,12 +1184,15 @@ def unpack_named_tuple(spec: ValueSpec) -> Expression:
         lines.append(f"def {method_name}({method_args}):")
     with lines.indent():
         lines.append("fields = []")
-        with lines.indent("try:"):
-            for unpacker in unpackers:
-                lines.append(f"fields.append({unpacker})")
-        with lines.indent("except IndexError:"):
-            lines.append("pass")
         field_type = spec.builder.get_type_name_identifier(spec.type)
+        for (idx, _), unpacker in zip(field_indices, unpackers):
+            # only a missing item may be replaced by its default, not an
+            # item whose own unpacker raises IndexError
+            with lines.indent("try:"):
+                lines.append(f"value[{idx}]")
+            with lines.indent("except IndexError:"):
+                lines.append(f"return {field_type}(*fields)")
+            lines.append(f"fields.append({unpacker})")
         lines.append(f"return {field_type}(*fields)")
     lines.append(
         f"setattr({spec.cls_attrs_name}, '{method_name}', {method_name})"
